@@ -227,6 +227,22 @@ def _check_change_tz(ctx, run, f):
             if re_["k"] == "call" and re_.get("callee") == "strdup" and ex.path(f, e["c"][0]) == "*old_tz":
                 if svar is not None and ex.path(f, re_["c"][0]) == svar:
                     strdup_store = (bid, i)
+    if strdup_store is None and svar is not None:
+        # `saved = strdup (s); ... *old_tz = saved;`: the copy is taken into a local first and published later
+        holders = {}
+        for bid, i in flow.all_events(f):
+            e = f.exprs[i]
+            if e["k"] == "asg" and e["op"] == "=":
+                re_ = f.exprs[ex.skip(f, e["c"][1])]
+                le_ = f.exprs[ex.skip(f, e["c"][0])]
+                if re_["k"] == "call" and re_.get("callee") == "strdup" and le_["k"] == "ref" and ex.path(f, re_["c"][0]) == svar:
+                    holders[le_["name"]] = (bid, i)
+        for bid, i in flow.all_events(f):
+            e = f.exprs[i]
+            if e["k"] == "asg" and e["op"] == "=" and ex.path(f, e["c"][0]) == "*old_tz":
+                re_ = f.exprs[ex.skip(f, e["c"][1])]
+                if re_["k"] == "ref" and re_.get("name") in holders:
+                    strdup_store = holders[re_["name"]]
     key = "RF-DEP:change_tz:save-before-set"
     if not (getenv and setenv):
         raise AnalysisBroken("change_tz: getenv(\"TZ\")/setenv anchors vanished")
